@@ -277,3 +277,156 @@ def plan_from_json(js):
     return out
 
 
+
+
+# ------------------------------------------------------------------------------------------------
+# stateful sequences: the other public queries of the TypeSystem (which share memoised state with the
+# subsumption queries) interleaved with subsumption queries on a complete, no longer changing graph
+def names_in(cl, infos):
+    """Universe names of the TypeInfos in a returned collection, in universe order (read only!)."""
+    got = {ti for ti in infos}
+    return [n for n in cl.universe if cl.info[n] in got]
+
+
+def gen_stateful_plan(rng, cl, pool, n_ops):
+    uni = list(cl.universe)
+    user = [n for n in cl.class_names] or uni
+    plan = []
+    for _ in range(n_ops):
+        c = rng.random()
+        if c < 0.16:
+            k = rng.choice([2, 2, 3, 1])
+            ks = rng.sample(user if rng.random() < 0.7 and len(user) >= k else uni, min(k, len(uni)))
+            plan.append(("outside", tuple(ks)))
+            # the classes of the 2nd.. hierarchy vs the first one, right afterwards
+            for other in ks[1:]:
+                plan.append(("q", ("subclass", other, ks[0])))
+                plan.append(("q", (rng.choice(["sub", "maybe"]), cm.t_inst(other) if cl.hg_of(other) is None else cm.t_inst("str"),
+                                   cm.t_inst(ks[0]) if cl.hg_of(ks[0]) is None else cm.t_inst("object"))))
+            plan.append(("subclasses", ks[0]))
+        elif c < 0.26:
+            plan.append(("subclasses", rng.choice(uni)))
+        elif c < 0.34:
+            plan.append(("superclasses", rng.choice(uni)))
+        elif c < 0.44:
+            plan.append((rng.choice(["find_attr", "to_info", "find_info", "all_types", "make_instance", "convert"]), rng.choice(uni)))
+        elif c < 0.62:
+            plan.append(("q", ("subclass", rng.choice(uni), rng.choice(uni))))
+        else:
+            a, b = rng.choice(pool), rng.choice(pool)
+            plan.append(("q", (rng.choice(["sub", "maybe", "dist"]), a, b)))
+    return plan
+
+
+def run_stateful(cl, plan, expected):
+    """Runs the plan on a fresh TypeSystem holding the complete graph of `cl`; a second fresh system that is
+    asked the subsumption queries only is the reference.  expected[(a, b)] = issubclass (+ tower)."""
+    from pynguin.utils.orderedset import OrderedSet
+
+    used = set(cl.universe)
+    for st in plan:
+        if st[0] == "q" and st[1][0] != "subclass":
+            cm.t_classes(st[1][1], used)
+            cm.t_classes(st[1][2], used)
+    names, edges, _ = cl.graph_for(used)
+    sys_, ref = cm.Cluster.bare_from(cl, names, edges), cm.Cluster.bare_from(cl, names, edges)
+    fails, sets = [], []
+    asked = []
+
+    def bad(sig, what):
+        if not any(f[0] == sig for f in fails):
+            fails.append((sig, what))
+
+    def exp_sub(c):
+        return [n for n in cl.universe if expected[(n, c)]]
+
+    for st in plan:
+        k = st[0]
+        if k == "q":
+            q = st[1]
+            got, want = ask(sys_, q), ask(ref, q)
+            asked.append(q)
+            if got != want:
+                bad(f"stateful:{QNAME[q[0]]}", f"{q_str(q)} = {got} after other TypeSystem queries were made; the same system asked only this: {want}")
+            if q[0] == "subclass" and got != expected[(q[1], q[2])]:
+                bad("stateful:subclass:" + ("missing" if expected[(q[1], q[2])] else "spurious"),
+                    f"after other TypeSystem queries were made: {q_str(q)} = {got}, issubclass (+ numeric tower) says {expected[(q[1], q[2])]}")
+        elif k == "outside":
+            res = names_in(cl, sys_.ts.get_type_outside_of(OrderedSet(sys_.info[n] for n in st[1])))
+            want = [n for n in cl.universe if not any(expected[(n, c)] for c in st[1])]
+            sets.append(("outside", st[1], res))
+            if res != want:
+                bad("stateful:get_type_outside_of", f"get_type_outside_of({list(st[1])}) gives {res} of the universe, issubclass says {want}")
+        elif k == "subclasses":
+            res = names_in(cl, sys_.ts.get_subclasses(sys_.info[st[1]]))
+            sets.append(("subclasses", st[1], res))
+            if res != exp_sub(st[1]):
+                bad("stateful:get_subclasses", f"get_subclasses({st[1]}) gives {res} of the universe after other queries, issubclass says {exp_sub(st[1])}")
+        elif k == "superclasses":
+            res = names_in(cl, sys_.ts.get_superclasses(sys_.info[st[1]]))
+            want = [n for n in cl.universe if expected[(st[1], n)]]
+            sets.append(("superclasses", st[1], res))
+            if res != want:
+                bad("stateful:get_superclasses", f"get_superclasses({st[1]}) gives {res} of the universe after other queries, issubclass says {want}")
+        elif k == "find_attr":
+            sys_.ts.find_by_attribute("x")
+        elif k == "to_info":
+            if sys_.ts.to_type_info(sys_.info[st[1]].raw_type) != sys_.info[st[1]]:
+                bad("stateful:to_type_info", f"to_type_info({st[1]}) returns another TypeInfo")
+        elif k == "find_info":
+            sys_.ts.find_type_info(sys_.info[st[1]].full_name)
+        elif k == "all_types":
+            sys_.ts.get_all_types()
+        elif k == "make_instance":
+            sys_.ts.make_instance(sys_.info[st[1]])
+        elif k == "convert":
+            sys_.ts.convert_type_hint(sys_.info[st[1]].raw_type)
+    # re-ask everything at the end
+    for q in dict.fromkeys(asked):
+        got, want = ask(sys_, q), ask(ref, q)
+        if got != want:
+            bad(f"stateful:{QNAME[q[0]]}", f"{q_str(q)} = {got} when re-asked after other TypeSystem queries; the same system asked only this: {want}")
+    for a in cl.universe:
+        for b in cl.universe:
+            got = sys_.ts.is_subclass(sys_.info[a], sys_.info[b])
+            if got != expected[(a, b)]:
+                bad("stateful:subclass:" + ("missing" if expected[(a, b)] else "spurious"),
+                    f"after other TypeSystem queries were made: is_subclass({a}, {b}) = {got}, issubclass (+ numeric tower) says {expected[(a, b)]}")
+    return fails, sets
+
+
+def splan_to_json(plan):
+    out = []
+    for st in plan:
+        if st[0] == "q":
+            out += plan_to_json([st])
+        elif st[0] == "outside":
+            out.append(["outside", list(st[1])])
+        else:
+            out.append(list(st))
+    return out
+
+
+def splan_from_json(js):
+    out = []
+    for st in js:
+        if st[0] == "q":
+            out += plan_from_json([st])
+        elif st[0] == "outside":
+            out.append(("outside", tuple(st[1])))
+        else:
+            out.append(tuple(st))
+    return out
+
+
+def shrink_splan(cl, plan, expected, sig):
+    changed, budget = True, 60
+    while changed and budget > 0:
+        changed = False
+        for i in range(len(plan)):
+            budget -= 1
+            cand = plan[:i] + plan[i + 1:]
+            if any(f[0] == sig for f in run_stateful(cl, cand, expected)[0]):
+                plan, changed = cand, True
+                break
+    return plan
